@@ -1,4 +1,4 @@
 SPECIFICATION Spec
-CONSTANT BothWrapped = FALSE
+CONSTANT BothWrapped = TRUE
 INVARIANT Export
 CHECK_DEADLOCK FALSE
